@@ -30,6 +30,7 @@ type pbField struct {
 	num  int
 	kind string // varint, bytes, fixed64, fixed32, zigzag32, zigzag64
 	rep  bool
+	req  bool
 	typ  types.Type
 	name string
 }
@@ -49,7 +50,7 @@ func pbFields(st *types.Struct) []pbField {
 		if err != nil {
 			continue
 		}
-		f := pbField{idx: i, num: num, kind: parts[0], rep: parts[2] == "rep", typ: st.Field(i).Type()}
+		f := pbField{idx: i, num: num, kind: parts[0], rep: parts[2] == "rep", typ: st.Field(i).Type(), req: parts[2] == "req"}
 		for _, p := range parts[3:] {
 			if n, ok := strings.CutPrefix(p, "name="); ok {
 				f.name = n
@@ -113,9 +114,20 @@ func (ex *Exec) pbEncode(v Value, t types.Type) []Value {
 		switch f.kind {
 		case "varint":
 			var x Int
+			explicit := false
+			ft := f.typ
+			if p, isPtr := fv.(*Value); isPtr {
+				// proto2 optional/required scalar: presence = non-nil pointer
+				if p == nil {
+					continue
+				}
+				fv = *p
+				ft = deref(f.typ)
+				explicit = true
+			}
 			switch b := fv.(type) {
 			case Int:
-				_, signed, _ := intWidth(f.typ)
+				_, signed, _ := intWidth(ft)
 				x = ex.toW(b, 64, signed)
 			case bool:
 				if b {
@@ -128,7 +140,9 @@ func (ex *Exec) pbEncode(v Value, t types.Type) []Value {
 			default:
 				ex.unsupported(fmt.Sprintf("proto: varint field %s is %T", f.name, fv))
 			}
-			if x.T == nil {
+			if explicit {
+				// always on the wire
+			} else if x.T == nil {
 				if x.C == 0 {
 					continue
 				}
@@ -183,7 +197,7 @@ func (ex *Exec) pbEncode(v Value, t types.Type) []Value {
 						}
 					}
 				} else {
-					if len(b) == 0 {
+					if len(b) == 0 && !(f.req && b != nil) {
 						continue
 					}
 					emit(b)
@@ -263,7 +277,11 @@ func (ex *Exec) pbDecode(b []Value, v Value, t types.Type) bool {
 			if f.kind != "varint" {
 				return false
 			}
-			if isBoolT(f.typ) {
+			if pt, isPtr := f.typ.Underlying().(*types.Pointer); isPtr {
+				w, _, _ := intWidth(pt.Elem())
+				var cell Value = ex.toW(x, w, false)
+				s[f.idx] = &cell
+			} else if isBoolT(f.typ) {
 				s[f.idx] = notVal(ex.intBinop(token.EQL, types.Typ[types.Uint64], x, CInt(0, 64)))
 			} else {
 				w, _, _ := intWidth(f.typ)
